@@ -329,6 +329,8 @@ Outcome RunC20(RunCtx& ctx)
 			if (!AllowedException(r.r)) return Violation("WRONG_EXCEPTION", tags, at + ": non-std exception");
 			if (r.faultFired && !r.r.ok && r.r.cat != "bad_alloc" && r.r.cat.compare(0, 4, "ser:") != 0)
 				return Violation("WRONG_EXCEPTION", tags + " what=type got=" + r.r.cat, at + ": expected std::bad_alloc or a SerializationException, got " + r.r.cat + " (" + r.r.what + ")");
+			// (an allocation that fails inside the stream buffer is turned into badbit by the iostream layer: that is a report, too)
+			if (r.faultFired && r.r.ok && !r.streamFailed) return Violation("SILENT_FAILURE", tags + " what=alloc_failure_swallowed", at + ", but LoadObject returned normally and the stream is good: the failure never reached the caller");
 			Outcome lk = leakCheck(r, [&] { return DoLoad(sc, sc.bytes, {}, false, k); }, tags, at);
 			if (lk.violation) return lk;
 			if (r.faultFired) out.nontrivial = true;
@@ -374,6 +376,7 @@ Outcome RunC20(RunCtx& ctx)
 			if (!AllowedException(r.r)) return Violation("WRONG_EXCEPTION", tags, at + ": non-std exception");
 			if (r.faultFired && !r.r.ok && r.r.cat != "bad_alloc" && r.r.cat.compare(0, 4, "ser:") != 0)
 				return Violation("WRONG_EXCEPTION", tags + " what=type got=" + r.r.cat, at + ": expected std::bad_alloc or a SerializationException, got " + r.r.cat + " (" + r.r.what + ")");
+			if (r.faultFired && r.r.ok && !r.streamFailed) return Violation("SILENT_FAILURE", tags + " what=alloc_failure_swallowed", at + ", but SaveObject returned normally and the stream is good: the failure never reached the caller");
 			Outcome lk = leakCheck(r, [&] { return DoSave(sc, nullptr, {}, k); }, tags, at);
 			if (lk.violation) return lk;
 			if (r.faultFired) out.nontrivial = true;
